@@ -101,17 +101,30 @@ class TicksFromInt(TypesBase):
 
 
 class TicksPythonize(TypesBase):
-    props = ("C17", "C15")        # C15: the wrapper hands out a timedelta for every TimeTicks value, 0 included
+    props = ("C17", "C15", "C19")  # C15/C19: the wrapper and the trap view hand out a timedelta for every TimeTicks value, 0 included
     target = "puresnmp.types:TimeTicks.pythonize"
     functions = (target,)
-    name = "TimeTicks.pythonize[0 <= n < 2^32]"
+
+    def __init__(self, received=False):
+        self.received = received
+        self.name = "TimeTicks.pythonize[0 <= n < 2^32%s]" % (", value as decoded from the wire (lazily)" if received else "")
 
     def run(self, interp):
         ctx, rt = interp.ctx, self.rt
         n = ctx.fresh_int("ticks")
         ctx.assume(And(n >= 0, n < 2 ** 32))
         cls = get_cls(rt, interp, "puresnmp.types:TimeTicks")
-        obj = Obj(cls, {"pyvalue": n, "_raw_bytes": b""})
+        if self.received:
+            # the object x690.decode leaves: no Python value yet, the content octets are decoded on first use
+            from pyvc import x690model
+            from pyvc.wire import WTlv, WInt
+            obj = x690model.install(rt, interp).obj_for(interp, WTlv(0x43, WInt(n), "min"))
+            for p in self.props:
+                ctx.check(oname(p, self.target, "requires", "decoded-as-a-TimeTicks"), isinstance(obj, Obj) and obj.cls is cls)
+            if not (isinstance(obj, Obj) and obj.cls is cls):
+                return "?"
+        else:
+            obj = Obj(cls, {"pyvalue": n, "_raw_bytes": b""})
         res = interp.call(rt.getattr(interp, obj, "pythonize"), [], {})
         ok = isinstance(res, Obj) and res.cls is rt.td_cls
         for p in self.props:
@@ -214,7 +227,7 @@ class RegistrationTable(VU):
 
 def units(tier):
     return units_codec(tier) + [CounterInit("Counter", 32), CounterInit("Counter64", 64), TicksFromTimedelta(), TicksFromInt(),
-            TicksPythonize(), IpRoundTrip(), RegistrationTable("C17")]
+            TicksPythonize(), TicksPythonize(received=True), IpRoundTrip(), RegistrationTable("C17")]
 
 
 def units_table_c06(tier):
